@@ -35,9 +35,10 @@ def run(ctx):
         return
     events = vf.read_ndjson(trace)
     ctx.cov["traces_validated_against_impl"] += len(events)
-    ctx.count(len(events), [("reply", e["id"]) for e in events])
+    nframes = sum(len(e["frames"]) if e["ev"] == "ReplyBatch" else 1 for e in events)
+    ctx.count(nframes, [("reply", e["id"], i) for e in events for i in range(len(e["frames"]) if e["ev"] == "ReplyBatch" else 1)])
     # binding self-test: a reported frame presented as not reported must be rejected
-    probe = next(e for e in events if e["nrec"] == 1)
+    probe = next(e for e in events if e["ev"] == "Reply" and e["nrec"] == 1)
     bad = json.loads(json.dumps(probe))
     bad["nrec"] = 0
     p = os.path.join(ctx.scratch, "c03-selftest.ndjson")
@@ -48,6 +49,15 @@ def run(ctx):
     ctx.step("selftest", corrupted="record of a reply-shaped frame removed", rejected=True)
     seen = set()
     for b in wc.validate_wire(ctx, events, "c03"):
+        if b["ev"] == "ReplyBatch":
+            key = "C03:%s:%s:batch" % (b["cfg"]["scan"], "vpn" if b["cfg"]["vpn"] else "eth")
+            if key in seen:
+                continue
+            seen.add(key)
+            ctx.violation(key, "%s scan (net %s, ranges %s): a batch of %d frames produced %d records %s...; not the records of its reply-shaped frames in order" %
+                          (b["cfg"]["scan"], b["cfg"]["net"] if b["cfg"]["hasNet"] else "-", b["cfg"]["ranges"], len(b["frames"]), len(b["recs"]), b["recs"][:3]),
+                          replay={"property": "C03", "trace_spec": "WireTrace", "run": [b]})
+            continue
         key = "C03:%s:%s:%s" % (b["cfg"]["scan"], "vpn" if b["cfg"]["vpn"] else "eth", "reported" if b["nrec"] else "missed")
         if key in seen:
             continue
@@ -56,7 +66,7 @@ def run(ctx):
                       (b["cfg"]["scan"], b["cfg"]["net"] if b["cfg"]["hasNet"] else "-", b["cfg"]["ranges"], b["bytes"][:64],
                        "reported" if b["nrec"] else "not reported", b["rec"], b["text"]),
                       replay={"property": "C03", "trace_spec": "WireTrace", "run": [b]})
-    for e in events[:2]:
+    for e in events[-2:]:
         ctx.sample({k: (v if k != "bytes" else v[:70]) for k, v in e.items()})
     # socket-level tier: the filter / processor wiring of every packet command on a real AF_PACKET socket with kernel BPF, per chunk
     n3, rej = wt.run_wire(ctx, select=lambda s: s["expect"]["kind"] == "packet" and (s["inject"] or s.get("flood")), label="c03w", focus="reply")
